@@ -264,6 +264,83 @@ class TaskPrecedence(TCBase):
 
 
 @register
+class PrecedenceBetweenGroups(Contract):
+    """TaskPrecedence whose operands are task groups (the fields accept them): every scheduled member of the group
+    before ends (plus the offset) no later than / strictly before every scheduled member of the group (or the task)
+    after starts.  The group's own start / end unknowns are auxiliary."""
+
+    target = "task_constraint.TaskPrecedence.__init__"
+    inlines = TCBase.inlines + ("task_constraint.TaskGroup.__init__", "task_constraint.UnorderedTaskGroup.__init__", "task_constraint.OrderedTaskGroup.__init__")
+    props = ("C03", "C05")
+    bounded = "groups of 2 tasks (one may be optional); a group or a single task after; all integers symbolic"
+
+    def cases(self, tier):
+        out = []
+        for window in ("none", "length"):
+            for after in ("task", "group"):
+                for kind in ("lax", "strict"):
+                    out.append(dict(window=window, after=after, kind=kind))
+        return out
+
+    def scenario(self, ps, P, case):
+        P.assume(P.int("H") >= 1)
+        pb = ps.SchedulingProblem(name="pb", horizon=P.int("H"))
+        for n in ("a1", "a2", "b1", "b2"):
+            P.assume(P.int(f"{n}_dur") >= 1)
+        a1 = ps.FixedDurationTask(name="a1", duration=P.int("a1_dur"))
+        a2 = ps.FixedDurationTask(name="a2", duration=P.int("a2_dur"), optional=True)
+        b1 = ps.FixedDurationTask(name="b1", duration=P.int("b1_dur"))
+        kw = {}
+        if case["window"] == "length":
+            P.assume(P.int("len") >= 0)
+            kw["time_interval_length"] = P.int("len")
+        ga = ps.UnorderedTaskGroup(list_of_tasks=[a1, a2], **kw)
+        tasks = [a1, a2, b1]
+        if case["after"] == "group":
+            b2 = ps.FixedDurationTask(name="b2", duration=P.int("b2_dur"))
+            tasks.append(b2)
+            after = ps.OrderedTaskGroup(list_of_tasks=[b1, b2])
+            after_members = [b1, b2]
+        else:
+            after = b1
+            after_members = [b1]
+        P.assume(P.int("offset") >= 0)
+        c = ps.TaskPrecedence(task_before=ga, task_after=after, offset=P.int("offset"), kind=case["kind"])
+        solver = ps.SchedulingSolver(problem=pb)
+        solver.initialize()
+        return dict(pb=pb, tasks=tasks, before=[a1, a2], after=after_members, c=c, solver=solver, window=case["window"])
+
+    def clauses(self, P, ctx, case):
+        pb = ctx["pb"]
+        A = asserted(ctx["solver"])
+        off = T(P.int("offset"))
+        cs = []
+        for m in ctx["before"]:
+            for n in ctx["after"]:
+                rel = (m._end + off <= n._start) if case["kind"] == "lax" else (m._end + off < n._start)
+                cs.append(Implies(And(spec.sched(m), spec.sched(n)), rel))
+        if case["after"] == "group":
+            b1, b2 = ctx["after"]
+            cs.append(b1._end <= b2._start)  # the ordered group after: its members in order
+        if case["window"] == "length":
+            L = T(P.int("len"))
+            for x in ctx["before"]:
+                for y in ctx["before"]:
+                    cs.append(Implies(And(spec.sched(x), spec.sched(y)), y._end - x._start <= L))
+        M = And(*cs)
+        out = [Clause("sound[every member of the group before precedes every member after]", M, hyps=A, props=("C03",), kind="sound", bounded=self.bounded)]
+        hz, H = pb._horizon, pb.horizon
+        valid = [valid_placement(t, i + 1, hz, H) for i, t in enumerate(ctx["tasks"])] + [hz >= 0, hz <= T(H)]
+        aux = fresh_consts(A, ctx["tasks"], pb)
+        goal = z3.Exists(aux, And(*A)) if aux else And(*A)
+        out.append(Clause("complete[a schedule in which the members are in that order is admitted]", goal, hyps=valid + [M], props=("C05",), kind="complete", bounded=self.bounded))
+        return out
+
+    def sentinels(self, P, ctx, case):
+        return [Clause("sentinel[false]", z3.BoolVal(False), hyps=asserted(ctx["solver"]), props=("C03", "C05"), kind="sound")]
+
+
+@register
 class TasksStartSynced(TCBase):
     target = "task_constraint.TasksStartSynced.__init__"
     ntasks = 2
